@@ -4,6 +4,7 @@ package httpendpoint
 
 import (
 	"context"
+	"fmt"
 	"time"
 
 	"github.com/rs/zerolog"
@@ -106,7 +107,11 @@ func (h *VerifC18Handle) States() map[string][]byte {
 	out := map[string][]byte{}
 
 	h.p.states.Range(func(key, value any) bool {
-		out[key.(string)] = append([]byte{}, value.([]byte)...) //nolint:forcetypeassert
+		if b, ok := value.([]byte); ok {
+			out[key.(string)] = append([]byte{}, b...) //nolint:forcetypeassert
+		} else {
+			out[key.(string)] = []byte(fmt.Sprintf("%v", value)) //nolint:forcetypeassert
+		}
 
 		return true
 	})
